@@ -37,7 +37,7 @@ import (
 )
 
 type c19Setup struct {
-	K string `json:"k"` // acquire | release | expire | restart | releaseall
+	K string `json:"k"` // acquire | release | expire | restart | releaseall | orphan (every lease that is no manager's current session expires)
 	B int    `json:"b"` // 0 = the handler's broker ("1"), 1 = the other broker ("2")
 	R int    `json:"r"` // index into c19Pool
 }
@@ -74,6 +74,7 @@ type c19Obs struct {
 	entered   [][]bool  // storage path entered for that (topic, partition) at all
 	owns      []bool    // handler's manager, per pool resource
 	ownsOther []bool
+	holders   []int    // per pool resource: manager whose current incarnation's session lease the key hangs on, or -1
 	setupEvs  []string // the executed pre-state as model events
 	keys      []int    // per pool resource: -1 absent, else broker index of the stored id (or -2)
 }
@@ -197,6 +198,25 @@ func (w *c19World) setup(op c19Setup) {
 		// the lessor is closed: this incarnation cannot open another session, so replace the
 		// client's lessor by a fresh one for later sessions
 		l.Lease = clientv3.NewLease(cli)
+	case "orphan":
+		c19Mu.Lock()
+		cur := map[clientv3.LeaseID]bool{}
+		for _, ids := range c19Current {
+			for _, id := range ids {
+				cur[id] = true
+			}
+		}
+		var dead []clientv3.LeaseID
+		for n, id := range w.granted {
+			if !cur[id] {
+				dead = append(dead, id)
+				w.revoked = append(w.revoked, n+1)
+			}
+		}
+		c19Mu.Unlock()
+		for _, id := range dead {
+			_, _ = w.root.Revoke(ctx, id)
+		}
 	case "restart":
 		// the process is replaced: the old manager is abandoned (its keep-alive stops, its lease
 		// stays in etcd), a new manager with the same broker id takes over
@@ -358,6 +378,23 @@ func c19Run(t *testing.T, endpoints []string, root *clientv3.Client, cs c19Case)
 		if err != nil {
 			t.Fatalf("CurrentOwner: %v", err)
 		}
+		holder := -1
+		if gr, err := root.Get(kctx, metadata.PartitionLeasePrefix()+"/"+r.rid()); err != nil {
+			t.Fatalf("etcd get: %v", err)
+		} else if len(gr.Kvs) > 0 {
+			c19Mu.Lock()
+			for i := 0; i < 2; i++ {
+				if l, ok := w.mgrs[i].EtcdClient().Lease.(*c19Lease); ok {
+					for _, id := range c19Current[l] {
+						if int64(id) == gr.Kvs[0].Lease {
+							holder = i
+						}
+					}
+				}
+			}
+			c19Mu.Unlock()
+		}
+		o.holders = append(o.holders, holder)
 		switch owner {
 		case "":
 			o.keys = append(o.keys, -1)
@@ -395,7 +432,8 @@ func c19Run(t *testing.T, endpoints []string, root *clientv3.Client, cs c19Case)
 				if idx < 0 {
 					continue
 				}
-				holds := o.owns[idx] && o.keys[idx] == 0 && !o.ownsOther[idx]
+				// holding the lease = Owns, key present with own id on a live lease of the current session, no other owner
+				holds := o.owns[idx] && o.keys[idx] == 0 && o.holders[idx] == 0 && !o.ownsOther[idx]
 				what := fmt.Sprintf("topic entry %d partition entry %d (%s/%d)", i, j, tp.Topic, p.Part)
 				if o.haveCodes && fail == "" {
 					if j >= len(o.codes[i]) {
@@ -405,7 +443,7 @@ func c19Run(t *testing.T, endpoints []string, root *clientv3.Client, cs c19Case)
 					code := o.codes[i][j]
 					// success only if this broker held the lease
 					if code == 0 && !holds {
-						setFail("success-without-lease", fmt.Sprintf("%s: code 0 but this broker does not hold the lease (Owns=%v, etcd owner index=%d, other broker Owns=%v)", what, o.owns[idx], o.keys[idx], o.ownsOther[idx]))
+						setFail("success-without-lease", fmt.Sprintf("%s: code 0 but this broker does not hold the lease (Owns=%v, etcd owner index=%d, key on current session of broker index=%d, other broker Owns=%v)", what, o.owns[idx], o.keys[idx], o.holders[idx], o.ownsOther[idx]))
 					}
 					// another owner -> NOT_LEADER_OR_FOLLOWER (when the request gets as far as the lease check)
 					if ownedBefore[c19Pool[idx].rid()] && tp.Topic != "denied" && cs.EtcdAvail && code != protocol.NOT_LEADER_OR_FOLLOWER {
@@ -455,16 +493,39 @@ func c19Gen(r *vRand) c19Case {
 			op.K = "release"
 		case x < 88:
 			op.K = "expire"
-		case x < 95:
+		case x < 93:
 			op.K = "restart"
+		case x < 97:
+			op.K = "orphan"
 		default:
 			op.K = "releaseall"
 		}
 		cs.Setup = append(cs.Setup, op)
 	}
+	var must *c19Res
+	if r.Chance(20) {
+		// restart (or session loss) -> the new incarnation takes its key over -> the OLD lease
+		// expires -> the other broker tries -> produce on this broker
+		b, res := r.Intn(2), r.Intn(3)
+		loss := "restart"
+		if r.Chance(30) {
+			loss = "expire"
+		}
+		cs.Setup = append(cs.Setup, c19Setup{K: "acquire", B: b, R: res}, c19Setup{K: loss, B: b, R: res}, c19Setup{K: "acquire", B: b, R: res})
+		if r.Chance(80) {
+			cs.Setup = append(cs.Setup, c19Setup{K: "orphan"})
+		}
+		if r.Chance(80) {
+			cs.Setup = append(cs.Setup, c19Setup{K: "acquire", B: 1 - b, R: res})
+		}
+		must = &c19Pool[res]
+	}
 	nt := r.Range(1, 3)
 	for i := 0; i < nt; i++ {
 		res := c19Pool[r.Intn(len(c19Pool))]
+		if must != nil && i == 0 {
+			res = *must
+		}
 		if res.topic == "denied" && r.Chance(60) {
 			res = c19Pool[r.Intn(3)]
 		}
@@ -503,6 +564,11 @@ func c19Corpus() []c19Case {
 		{Leasing: true, EtcdAvail: true, S3: "healthy", Acks: -1,
 			Setup: []c19Setup{{K: "acquire", B: 0, R: 2}, {K: "restart", B: 0}},
 			Req:   []c19Topic{{Topic: "events", Parts: ok(0)}}},
+		// ... and after the previous incarnation's lease expired the key must still be there
+		// (re-put under the new session), so the other broker is refused and this one may append
+		{Leasing: true, EtcdAvail: true, S3: "healthy", Acks: -1,
+			Setup: []c19Setup{{K: "acquire", B: 0, R: 0}, {K: "restart", B: 0}, {K: "acquire", B: 0, R: 0}, {K: "orphan"}, {K: "acquire", B: 1, R: 0}},
+			Req:   []c19Topic{{Topic: "orders", Parts: ok(0)}}},
 		// the other broker's session expired: its partitions can be taken
 		{Leasing: true, EtcdAvail: true, S3: "healthy", Acks: 1,
 			Setup: []c19Setup{{K: "acquire", B: 1, R: 0}, {K: "acquire", B: 1, R: 2}, {K: "expire", B: 1}},
@@ -538,6 +604,8 @@ func c19CoqSetup(op c19Setup) []string {
 		return []string{"Restart " + b}
 	case "releaseall":
 		return []string{"ReleaseAll " + b}
+	case "orphan":
+		return []string{} // the OrphanExpire events are appended from w.revoked
 	}
 	return nil
 }
@@ -580,14 +648,16 @@ func c19Coq(cs c19Case, o c19Obs) string {
 	owns := make([]string, len(c19Pool))
 	ownsOther := make([]string, len(c19Pool))
 	keys := make([]string, len(c19Pool))
+	holders := make([]string, len(c19Pool))
 	for i, r := range c19Pool {
 		pool[i] = cqStr(r.rid())
 		owns[i] = cqBool(o.owns[i])
 		ownsOther[i] = cqBool(o.ownsOther[i])
 		keys[i] = cqZ(int64(o.keys[i]))
+		holders[i] = cqZ(int64(o.holders[i]))
 	}
-	return fmt.Sprintf("mkPCase %s %s %s %s %s %s %s %s %s %s", cqList(evs), env, cqList(req), cqList(pool),
-		cqBool(o.haveCodes), cqList(codes), cqList(entered), cqList(owns), cqList(ownsOther), cqList(keys))
+	return fmt.Sprintf("mkPCase %s %s %s %s %s %s %s %s %s %s %s", cqList(evs), env, cqList(req), cqList(pool),
+		cqBool(o.haveCodes), cqList(codes), cqList(entered), cqList(owns), cqList(ownsOther), cqList(keys), cqList(holders))
 }
 
 func TestVerifC19(t *testing.T) {
